@@ -239,7 +239,7 @@ func run(r *engine.Run) {
 	} else {
 		r.Bound = "THOROUGH. pure samplers: every ordered weight vector over {1,2,3,10^6,2^62,2^63} of length 1..6 and over {1,2,3,7,10^6,2^62,2^63-1,2^63} of length 1..5, " +
 			"18 hand-chosen vectors at/around a total of 2^64; cnt 1..n, tries {1,2,3,10}, 3 seeds x 3 ids. DRBG stream as quick. " +
-			"oracle keeper: 4 validators {E,I,U,X}^4 x {1,3,10^6,1.5*10^6,99999999,2^62,2^63}^4, tries {1,2,3,10} x 2 seeds x 2 ids (+ second chain id); 5 validators {E,I,U,X}^5 x {1,10^6,1.5*10^6,2^63}^5; " +
+			"oracle keeper: 4 validators {E,I,U,X}^4 x {1,3,10^6,1.5*10^6,2^62,2^63}^4, tries {1,3,10} x 2 seeds x 2 ids (+ second chain id); 5 validators {E,I,U,X}^5 x {3,10^6,2^63}^5, tries {1,3}; " +
 			"6 validators {E,I}^6 x {3,10^6,1.5*10^6,2^62}^6; near-2^64 as quick. MsgRequestData: additionally 4 equal-stake validators and 5 validators {E,I,U}^5. " +
 			"tss GetRandomMembers: groups of 1..6 members; RequestSigning + retry: 1..5 members. rolling seed as quick"
 	}
